@@ -1204,6 +1204,16 @@ class EventBus:
             # Cancel the monitor task on timeout too
             monitor_task.cancel()
 
+            current_task = asyncio.current_task()
+            if current_task is not None and current_task.cancelling() == 0:
+                # Nobody cancelled the task that is processing this event: the handler itself raised CancelledError
+                # (e.g. it awaited something that somebody else cancelled). That is this handler's own error like any
+                # other exception, not a timeout of a parent handler and not a shutdown of the bus.
+                event.event_result_update(handler=handler, eventbus=self, error=e)
+                raise RuntimeError(
+                    f'Event handler {get_handler_name(handler)}#{handler_id[-4:]}({event}) raised {type(e).__name__} but was not cancelled'
+                ) from e
+
             # Create a RuntimeError for timeout
             # TODO: figure out why it breaks when we try to switch to InterruptedError instead of asyncio.CancelledError
             handler_interrupted_error = asyncio.CancelledError(
